@@ -482,7 +482,7 @@ func (g *gen) revertTop() {
 func (g *gen) selfdestruct() {
 	a := g.anyAddr()
 	ad := g.u.addr(a)
-	if g.db.Empty(ad) {
+	if !g.contractLike(a) {
 		g.read()
 		return
 	}
@@ -493,8 +493,18 @@ func (g *gen) selfdestruct() {
 	g.emit(c03Op{K: "suicide", A: a})
 }
 
+func (g *gen) contractLike(a int) bool {
+	ad := g.u.addr(a)
+	return g.db.GetNonce(ad) != 0 || g.db.GetCodeSize(ad) != 0
+}
+
 func (g *gen) sstore() {
 	a, k := g.anyAddr(), g.anyKey()
+	if !g.bad && !g.contractLike(a) {
+		// SSTORE runs in an account with code (or nonce 1 during creation)
+		g.emit(c03Op{K: "state", A: a, Key: k})
+		return
+	}
 	v := int64(g.r.Pick(3, 2, 2, 1))
 	if g.r.Chance(1, 2) {
 		g.emit(c03Op{K: "state", A: a, Key: k})
@@ -519,7 +529,12 @@ func (g *gen) mutate(depth int) {
 	case 1:
 		g.sstore()
 	case 2:
-		g.emit(c03Op{K: "setnonce", A: g.anyAddr(), V: int64(g.r.Range(0, 5))})
+		a := g.anyAddr()
+		n := int64(g.db.GetNonce(g.u.addr(a))) + int64(g.r.Range(0, 2))
+		if g.bad {
+			n = int64(g.r.Range(0, 5))
+		}
+		g.emit(c03Op{K: "setnonce", A: a, V: n})
 	case 3:
 		g.nlog++
 		g.emit(c03Op{K: "log", A: g.anyAddr(), V: g.nlog})
